@@ -116,6 +116,16 @@ POSITIVE = [
     ("same-parameter-twice",
      'Schreibe (zwei 1 2) auf eine Zeile.\nSchreibe (zwei "a" "b") auf eine Zeile.\nDer Zahl-Solo s ist Solo(4).\nSchreibe (x von (zwei s (Solo(9)))) auf eine Zeile.\n',
      "2\nb\n9\n"),
+    ("instantiation-named-inside-generic-body",
+     'Die generische Funktion pack mit dem Parameter v vom Typ T, gibt einen T-Solo zurück, macht:\n\tDer T-Solo k ist Solo(v).\n\tGib k zurück.\n'
+     'Und kann so benutzt werden:\n\t"pack <v>"\n\n'
+     'Der Zahl-Solo s ist pack 4.\nSchreibe (x von s) auf eine Zeile.\nDer Text-Solo t ist pack "w".\nSchreibe (x von t) auf eine Zeile.\n'
+     'Der Zahl-Solo s2 ist Solo(9).\nSpeichere s2 in s.\nSchreibe (x von s) auf eine Zeile.\n',
+     "4\nw\n9\n"),
+    ("alias-as-type-argument",
+     'Wir nennen eine Zahl auch eine Ganzzahl.\nDer Ganzzahl-Solo g ist Solo(5).\nDer Zahl-Solo s ist Solo(1).\nSpeichere g in s.\nSchreibe (x von s) auf eine Zeile.\n'
+     'Der Ganzzahl-Text-Paar gp ist Paar(2, "q").\nSchreibe (nimm gp) auf eine Zeile.\n',
+     "5\n2\n"),
     ("list-of-instantiation",
      'Die Zahl-Solo Liste l ist eine Liste, die aus (Solo(1)), (Solo(2)) besteht.\nSchreibe (x von (l an der Stelle 2)) auf eine Zeile.\n',
      "2\n"),
